@@ -270,3 +270,173 @@ func freeVarFor(lit *ssa.Function, a *ssa.Alloc) *ssa.FreeVar {
 	}
 	return nil
 }
+
+// unbufferedHandoff checks that the queue between callers and the writer goroutine of a region
+// client is a rendezvous channel wherever a client is built. QueueBatch's select offers the batch
+// and watches c.done; fail() never drains the channel and the writer stops reading once done is
+// closed, so a buffered channel can accept a batch that nobody will ever read or complete.
+func unbufferedHandoff(c *kit.Ctx) {
+	p := c.P
+	f := p.Field("region", "client", "rpcs")
+	if f == nil {
+		c.Unk(nil, "handoff-channel", token.NoPos, "region.client.rpcs not found")
+		return
+	}
+	n := 0
+	for _, a := range p.FieldAccesses(f) {
+		if !a.Write {
+			continue
+		}
+		st, ok := a.Instr.(*ssa.Store)
+		if !ok {
+			c.Unk(a.Fn, "handoff-channel", a.Instr.Pos(), "the queue channel is written by an unrecognised instruction")
+			continue
+		}
+		n++
+		mk, ok := kit.Root(st.Val).(*ssa.MakeChan)
+		size, isConst := int64(-1), false
+		if ok {
+			size, isConst = kit.ConstInt(mk.Size)
+		}
+		c.Check(ok && isConst && size == 0, a.Fn, "handoff-channel", st.Pos(), "the queue is an unbuffered channel: a batch is either taken by the writer or refused by the <-done case",
+			"the queue between callers and the writer goroutine is not an unbuffered channel: once the connection has failed a batch can be accepted into the buffer (select picks among ready cases at random) and is never read, completed or refused")
+	}
+	if n == 0 {
+		c.Unk(nil, "handoff-channel", token.NoPos, "no construction site of the queue channel found")
+	}
+}
+
+// selectArmsAt returns the select states whose case body dominates b (decided by the
+// index comparisons on the paths to b).
+func selectArmsAt(b *ssa.BasicBlock) []*ssa.SelectState {
+	var out []*ssa.SelectState
+	for _, f := range kit.FactsAt(b) {
+		bo, ok := f.Cond.(*ssa.BinOp)
+		if !ok || bo.Op != token.EQL || !f.Pol {
+			continue
+		}
+		ex, ok := bo.X.(*ssa.Extract)
+		if !ok || ex.Index != 0 {
+			continue
+		}
+		sel, ok := ex.Tuple.(*ssa.Select)
+		if !ok {
+			continue
+		}
+		if k, ok := kit.ConstInt(bo.Y); ok && int(k) < len(sel.States) {
+			out = append(out, sel.States[k])
+		}
+	}
+	return out
+}
+
+// sameContext reports whether two context values are the same value or the Context() of the same call.
+func sameContext(a, b ssa.Value) bool {
+	a, b = kit.Root(a), kit.Root(b)
+	if kit.Same(a, b) {
+		return true
+	}
+	ca, ok1 := a.(*ssa.Call)
+	cb, ok2 := b.(*ssa.Call)
+	if ok1 && ok2 && kit.CalleeName(ca) == hrpcCall+"Context" && kit.CalleeName(cb) == hrpcCall+"Context" {
+		return kit.Same(kit.Root(ca.Call.Value), kit.Root(cb.Call.Value))
+	}
+	return false
+}
+
+// handbackErrorUnchanged: the error trySend hands back (it classifies the failure: ServerError,
+// RetryableError, ...) is delivered to the call as it is. Consumers classify by type switch, so a
+// wrapped error (fmt.Errorf("...%w")) is an application error to them: not retried, connection not
+// declared dead.
+func handbackErrorUnchanged(c *kit.Ctx) {
+	p := c.P
+	n := 0
+	for _, s := range callersOf(p, kit.M("region", "*client", "trySend")) {
+		fn := s.Parent()
+		res := s.Value()
+		if res == nil {
+			continue
+		}
+		arg := s.Common().Args[1]
+		for _, cc := range append(kit.Calls(fn, kit.M("region", "", "returnResult")), kit.Calls(fn, kit.M("region", "*multi", "returnResults"))...) {
+			if !kit.Reaches(s.(ssa.Instruction), cc.(ssa.Instruction)) {
+				continue
+			}
+			if !(kit.Same(cc.Common().Args[0], arg) || sameVarNoStoreBetween(cc.Common().Args[0], arg, s.(ssa.Instruction), cc.(ssa.Instruction))) {
+				continue
+			}
+			n++
+			c.Check(kit.Same(kit.Root(cc.Common().Args[2]), res), fn, "handback-error-unchanged", cc.Pos(), "the call is completed with the very error trySend returned",
+				"the error handed back by trySend is replaced or wrapped before it is delivered: the consumers classify errors by their dynamic type, so a connection failure arrives as an application error - not retried, the dead connection not discarded")
+		}
+	}
+	if n == 0 {
+		c.Unk(nil, "handback-error-unchanged", token.NoPos, "no delivery of a trySend error found")
+	}
+}
+
+// deadConnectionIsTheFailedOne: the connection declared dead after a failed result is the connection
+// the failed call was queued on (not whatever connection the region has by now: a late error of an
+// already replaced connection must not take the replacement down).
+func deadConnectionIsTheFailedOne(c *kit.Ctx) {
+	p := c.P
+	hre := p.Func("", "client", "handleResultError")
+	wfc := p.Func("", "client", "waitForCompletion")
+	s2rc := p.Func("", "client", "sendRPCToRegionClient")
+	if hre == nil || wfc == nil || s2rc == nil {
+		c.Unk(nil, "failed-connection", token.NoPos, "handleResultError / waitForCompletion / sendRPCToRegionClient not found")
+		return
+	}
+	rcH := paramOfType(hre, "/hrpc.RegionClient", 0)
+	for _, call := range kit.Calls(hre, kit.M("", "*client", "clientDown")) {
+		c.Check(rcH != nil && call.Common().Args[1] == ssa.Value(rcH), hre, "failed-connection-down", call.Pos(), "clientDown(rc, ...) with the connection handleResultError was given", "handleResultError declares dead a connection other than the one it was given")
+	}
+	for _, fn := range []*ssa.Function{wfc, s2rc} {
+		rcP := paramOfType(fn, "/hrpc.RegionClient", 0)
+		hs := kit.Calls(fn, kit.M("", "*client", "handleResultError"))
+		if len(hs) == 0 || rcP == nil {
+			c.Unk(fn, "failed-connection-passed", fn.Pos(), "no handleResultError call / connection parameter in "+fn.Name())
+			continue
+		}
+		for _, h := range hs {
+			c.Check(kit.Same(h.Common().Args[3], rcP), fn, "failed-connection-passed", h.Pos(), "the connection passed is the one this function waited on ("+rcP.Name()+")",
+				"a failed result is attributed to a connection other than the one the call was queued on (e.g. the region's current connection): a late connection-level error of an already replaced connection evicts the healthy replacement, which is not closed, and a further connection to the same address is opened")
+		}
+	}
+	// the single-call path queues on that same connection
+	rcP := paramOfType(s2rc, "/hrpc.RegionClient", 0)
+	for _, q := range kit.Calls(s2rc, hrpcRC+"QueueRPC") {
+		c.Check(rcP != nil && q.Common().Value == ssa.Value(rcP), s2rc, "queued-on-that-connection", q.Pos(), "QueueRPC is invoked on the connection parameter", "the call is queued on a different connection than the one errors are attributed to")
+	}
+}
+
+// clientDownOnlyWhenDead: client.clientDown (which makes the cache forget a connection without
+// closing it) is called only where the connection was observed dead: a ServerError result or a
+// failed Dial.
+func clientDownOnlyWhenDead(c *kit.Ctx, hre, est *ssa.Function) {
+	p := c.P
+	serverErr := p.Named("region", "ServerError")
+	for _, s := range callersOf(p, kit.M("", "*client", "clientDown")) {
+		fn := s.Parent()
+		switch fn {
+		case hre, est:
+			if _, ok := typeAssertEdge(s.Block(), serverErr); ok {
+				c.OK(fn, "declared-dead", s.Pos(), "on the success edge of a type assertion to region.ServerError")
+				continue
+			}
+			// failed dial in establishRegion
+			ok := false
+			for _, f := range kit.FactsAt(s.Block()) {
+				if cmp, isCmp := kit.CanonCmp(f.Cond, f.Pol); isCmp && cmp.Op == token.NEQ && kit.IsNilConst(cmp.Y) {
+					if call, isCall := kit.Root(cmp.X).(*ssa.Call); isCall && kit.CalleeName(call) == hrpcRC+"Dial" {
+						ok = true
+					}
+				}
+			}
+			c.Check(ok && fn == est, fn, "declared-dead", s.Pos(), "on the edge where Dial of this connection returned an error",
+				"client.clientDown called where neither a ServerError nor a failed dial was observed")
+		default:
+			c.Bad(fn, "declared-dead", s.Pos(), "unexpected caller of client.clientDown: connections may be dropped from the cache while healthy", "")
+		}
+	}
+}
